@@ -21,6 +21,27 @@ CHECKS = {
  "C12": dict(tech="who-may-call + dominance rules over every sink/output-handler call site in MIR; non-emptiness proofs per site; poisoning guard path rule",
       text="Decides: encoding announced before any chunk and at every switch; the zero-length chunk emitted exactly once, last, only after handle_end succeeded; every other value handed to the sink is provably non-empty (constant, dominated by an emptiness test, forwarding, or a reviewed table entry); every Err of write/end poisons and poisoned use panics before reaching the stream; no Drop emits. Prefix relation between runs is not decided.",
       ref="DESIGN.md §3 C12"),
+ "C02": dict(tech="end-of-chunk leaf rules over the extracted automaton; type-driven completeness of Align impls; CFG dominance rules (flush before scope change, decoder fast-path guard)",
+      text="Decides the mechanisms that make chunk boundaries invisible: no state decides on a truncated look-ahead (all 65 states, every matched prefix), every stored range is re-based (type-driven over the ADTs), break_on_end_of_input re-bases the cursor with the reported count, pending text is flushed before scope can change, the decoder's fast path is never taken while a split character is pending. Equality of outputs between two schedules as such is not decided.",
+      ref="DESIGN.md §3 C02"),
+ "C03": dict(tech="dataflow of the text type over the extracted automaton; finite-domain abstract interpretation of the tag predicates and of the ambiguity guard compared with tables transcribed from the HTML specification",
+      text="Decides: every tag emission is followed by the dynamic text state and every literal transition into a text state is type-consistent (all paths of the automaton); the complete decision tables (all Tag variants x states) of the text-mode table, foreign-content break-out list, integration points and of AmbiguityGuard equal the specification-derived reference; strict only gates the guard; 'appropriate end tag' compares against a hash recorded for start tags only. Token-boundary equivalence with the WHATWG tokenizer on all inputs is decided only as far as these clauses reach.",
+      ref="DESIGN.md §3 C03"),
+ "C06": dict(tech="type-driven bookmark completeness; CFG dominance rules on TagScanner::finish_tag_name and the dispatcher's hint-flag protocol; who-may-call rule for tree-builder feedback",
+      text="Decides the hand-over between tag scanner and lexer: every bookmark field captured and restored, sticky per-tag scratch reset on every continuing exit, the got_flags_from_hint protocol, feedback requested once per tag. Equality of event logs under two handler sets is a relation between runs and is not decided.",
+      ref="DESIGN.md §3 C06"),
+ "C13": dict(tech="compile_fail witnesses with compiling twins (type-level); who-may-call rules for BOM-sniffing decoders and the write-once shared encoding; CFG placement of the encoding switch",
+      text="Decides: only ASCII-compatible encodings can be configured (type-level, proved by the compiler on witnesses), the encoding can change at most once and is applied right after the meta token with the sink notified, inserted &str bytes are routed through the encoder, no BOM-sniffing decode entry point touches document fragments. Decoder arithmetic at split characters is encoding_rs behaviour and not decided.",
+      ref="DESIGN.md §3 C13"),
+ "C14": dict(tech="operand-identity and dominance rules over MIR for every place a document offset is added, advanced or remembered; type-driven Align completeness",
+      text="Decides the offset-carrying clauses: lexeme/attribute locations add the document offset exactly once, the offset advances only in Parser::parse by the reported count, modified tokens keep their length, text-chunk locations follow the contiguity protocol in the decoder. That encoding_rs read counts are right is assumed.",
+      ref="DESIGN.md §3 C14"),
+ "C15": dict(tech="progress analysis of the automaton per input symbol; must-typestate of action preconditions; inventory of panic-capable MIR sites against a reviewed table with re-checked guard witnesses; call-graph cycle detection",
+      text="Structural part only: the tokenizer always makes progress, actions that raise internal errors are never reachable without their precondition, every panic-capable construct in non-test code is accounted for (new ones are reported), recursion is limited to reviewed cycles. It does not prove absence of panics for all inputs; two debug-assertion panics reachable from public inputs are recorded as known findings.",
+      ref="DESIGN.md §3 C15"),
+ "C16": dict(tech="may-typestate of the attribute-building actions over all automaton paths; lookup/edit discipline and getter routing over MIR; lint for byte-wise case folding of encoded names",
+      text="Decides: attributes are opened, named, valued and closed in protocol order on every path and a tag is emitted only with no attribute open; lookups lower-case the query, return the first match, see edits, removal removes all duplicates; getters route to the right decoder; the reported namespace is the one the tag was processed in. Byte-wise folding of multi-byte encoded names is a known finding. Exact closing-quote arithmetic is not decided.",
+      ref="DESIGN.md §3 C16"),
 }
 
 PENDING_REASON = "check for this property is not built yet in this revision (work in progress; see DESIGN.md §3 for the planned static rules)"
